@@ -1,6 +1,7 @@
 package postgres
 
 import (
+	"bytes"
 	"context"
 	"fmt"
 
@@ -40,6 +41,11 @@ func (pdb *pgDb) Dump(ctx context.Context, key []byte) (*db.Dumper, error) {
 			rs.Close()
 			tx.Rollback(ctx)
 			return nil, err
+		}
+		// the query has no upper bound: everything from the first key on comes back, other
+		// sessions and the data types that sort behind this one included
+		if !bytes.HasPrefix(kk, k) {
+			continue
 		}
 		rows = append(rows, [2][]byte{kk, vv})
 	}
